@@ -1,2 +1,34 @@
-(** Theorems for C08: filled in below as the proofs land. *)
-From JL Require Import Base.Json.
+(** * C08: === and !== compare primitives by type and value; containers are never equal.
+    Statements only. *)
+From Coq Require Import List Bool.
+From JL Require Import Base.Json Base.Monad Model.JsOp Model.Ops Spec.Specs Proofs.OpsBasic Proofs.Floats.
+Import ListNotations.
+
+(** the operator calls strict_eq on two distinct slots of a freshly collected operand vector, so
+    the pointer-identity shortcut cannot fire: [same_ref = false] *)
+Theorem C08_strict_eq : forall a b, strict_eq false a b = es_strict_eq a b.
+Proof. exact strict_eq_spec. Qed.
+Print Assumptions C08_strict_eq.
+
+Theorem C08_strict_ne : forall a b, strict_ne false a b = negb (es_strict_eq a b).
+Proof. reflexivity. Qed.
+Print Assumptions C08_strict_ne.
+
+Theorem C08_operator : forall a b, op_strict_eq [a; b] = Ok (Bool (es_strict_eq a b))
+                               /\ op_strict_ne [a; b] = Ok (Bool (negb (es_strict_eq a b))).
+Proof. intros; split; reflexivity. Qed.
+Print Assumptions C08_operator.
+
+(** containers are never strictly equal to anything *)
+Theorem C08_containers : forall a b, is_container a = true \/ is_container b = true -> es_strict_eq a b = false.
+Proof. intros a b [H|H]; destruct a, b; try discriminate; reflexivity. Qed.
+Print Assumptions C08_containers.
+
+Theorem C08_symmetric : forall a b, es_strict_eq a b = es_strict_eq b a.
+Proof.
+  intros a b; destruct a, b; try reflexivity; cbn [es_strict_eq].
+  - destruct b, b0; reflexivity.
+  - apply f64_eqb_sym.
+  - apply str_eqb_sym.
+Qed.
+Print Assumptions C08_symmetric.
